@@ -71,24 +71,24 @@ Definition check_trace (nodes : list Z) (edges : list (Z * Z * Q)) (ts : list Q)
 (* detailed output: for every distinct requested threshold the implementation's column (in
    node-table order) equals the spec labelling and every model entry for that threshold *)
 Definition TR := option (list (list (Z * Z) * list Z)).
-Definition DC := (list Z * list (Z * Z * Q) * list (bool * Z * Q) * list ((bool * Z * Q) * list (Z * Z)) * TR)%type.
+Definition DC := (list Z * list (Z * Z * option Q) * list (bool * Z * Q) * list ((bool * Z * Q) * list (Z * Z)) * TR)%type.
 Definition run_detail (c : DC) : bool :=
   match c with (nodes, edges, ts, cols, tr) =>
-    let m := multi nodes edges (map thrQ ts) in
+    let m := multi_n nodes edges (map thrQ ts) in
     Nat.eqb (length m) (length ts) &&
     forallb (fun tc =>
       let t := thrQ (fst tc) in
-      list_eqb (snd tc) (comp_labels nodes (thr_edges (Some t) edges)) &&
+      list_eqb (snd tc) (comp_labels nodes (thr_edges_n (Some t) edges)) &&
       negb (Nat.eqb (length (entries m t)) 0) &&
       forallb (fun cc => same_set cc (snd tc)) (entries m t)) cols &&
     forallb (fun t => existsb (fun tc => Qeq_bool (thrQ (fst tc)) (thrQ t)) cols) ts &&
-    check_trace nodes edges (map thrQ ts) tr
+    check_trace nodes (non_null edges) (map thrQ ts) tr
   end.
 (* summary statistics: (threshold, num_clusters, max_cluster_size, avg_cluster_size) rows *)
-Definition SC := (list Z * list (Z * Z * Q) * list (bool * Z * Q) * list ((bool * Z * Q) * (nat * nat * Q)) * TR)%type.
+Definition SC := (list Z * list (Z * Z * option Q) * list (bool * Z * Q) * list ((bool * Z * Q) * (nat * nat * Q)) * TR)%type.
 Definition run_stats (c : SC) : bool :=
   match c with (nodes, edges, ts, rows, tr) =>
-    let m := multi nodes edges (map thrQ ts) in
+    let m := multi_n nodes edges (map thrQ ts) in
     forallb (fun tr =>
       let t := thrQ (fst tr) in
       negb (Nat.eqb (length (entries m t)) 0) &&
@@ -97,7 +97,7 @@ Definition run_stats (c : SC) : bool :=
         | (n, mx, avg), (n', mx', avg') => Nat.eqb n n' && Nat.eqb mx mx' && Qabs_le avg avg' (Qmake 1 1000000000)
         end) (entries m t)) rows &&
     forallb (fun t => existsb (fun tr => Qeq_bool (thrQ (fst tr)) (thrQ t)) rows) ts &&
-    check_trace nodes edges (map thrQ ts) tr
+    check_trace nodes (non_null edges) (map thrQ ts) tr
   end.
 Definition mkD (c : DC) : DC + SC := inl c.
 Definition mkS (c : SC) : DC + SC := inr c.
@@ -146,7 +146,7 @@ def _frames(case):
     edges = pd.DataFrame({
         "uid_l": X5._col([X5.key_of(e[0]) for e in case["edges"]], kind),
         "uid_r": X5._col([X5.key_of(e[1]) for e in case["edges"]], kind),
-        "match_probability": pd.Series([X5.pfloat(e[2]) for e in case["edges"]], dtype="float64"),
+        "match_probability": X5.prob_series([e[2] for e in case["edges"]]),
     })
     return nodes, edges
 
@@ -223,7 +223,7 @@ def oracle(case, value):
         return x
 
     for l, r, k in case["edges"]:
-        if X5.pfrac(k) >= value:
+        if X5.qualifies(k, value):
             a, b = find(rk[X5.key_of(l)]), find(rk[X5.key_of(r)])
             if a != b:
                 parent[max(a, b)] = min(a, b)
@@ -452,6 +452,7 @@ def features_of(case):
     return {"backend": case["backend"], "threshold_kind": kind, "stats": bool(case.get("stats")),
             "negative_match_weight_detailed": bool(kind in ("w", "wf") and not case.get("stats") and any(float(w) < 0 for w in vals)),
             "n_thresholds": len(vals), "n_nodes": len(case["nodes"]),
+            "null_probability_edges": any(e[2] is None for e in case["edges"]),
             "earlier_calls_on_same_db_api": len(case.get("prior") or []), "splinkdataframe_inputs": bool(case.get("sdf"))}
 
 
@@ -542,6 +543,28 @@ def gen_sequence(rng, backend, kind, sdf):
         c = dict(g, thresholds=[t[0], list(t[1])], stats=st, sdf=sdf, family="seq_" + kind)
         seq.append(c)
     return seq
+
+
+def build_null_case(rng, fam, n, backend, idkind, stats):
+    """Threshold lists that contain 0 and edge rows with a NULL match_probability (bridging ones
+    included): a cluster held together only by a NULL edge must not exist at any threshold."""
+    c = X5.build_case(rng, fam, n, "standalone", backend, idkind, None, thr=None, cut_rate=1.0, noise=True)
+    hit = False
+    for e in c["edges"]:
+        e[2] = rng.choice(PROBS)
+        if rng.random() < 0.35:
+            e[2] = None
+            hit = True
+    if c["edges"] and not hit:
+        rng.choice(c["edges"])[2] = None
+    ks = [0] + [rng.choice(PROBS[1:]) for _ in range(rng.randint(0, 3))]
+    ks = list(dict.fromkeys(ks))
+    rng.shuffle(ks)
+    c["thresholds"] = ["p", ks]
+    c["stats"] = stats
+    c["family"] = "null_" + fam
+    del c["thr"]
+    return c
 
 
 def grid_case(rng, n, probs_per_pair, thresholds, backend, stats=False):
